@@ -63,7 +63,7 @@ def gen_case(seed, tier, index=0):
         paras.append(p)
     if rng.chance(0.5) and not any(p["files"] == "*" for p in paras):
         paras.insert(0, {"files": "*", "copyright": "2001 Everyone", "license": "CC0-1.0"})
-    files.append({"path": ".reuse/dep5", "content": G.dep5(paras, header=rng.chance(0.85))})
+    files.append({"path": ".reuse/dep5", "content": G.dep5(paras, header=rng.chance(0.97))})
     for lic in sorted({l for p in paras for l in re.findall(r"[A-Za-z0-9][A-Za-z0-9.+-]+", p["license"].split("\n")[0])
                        if l not in ("or", "WITH", "OR", "AND")} | {"MIT"}):
         if rng.chance(0.8):
@@ -74,8 +74,8 @@ def gen_case(seed, tier, index=0):
     env = {}
     if rng.chance(0.7):
         env["buffer_size"] = rng.pick([16, 40, 100, 512])
-    if rng.chance(0.3):
-        env["short_io"] = rng.pick([5, 50])
+    if rng.chance(0.5):
+        env["short_io"] = rng.pick([5, 50, 200])
     serial = rng.chance(0.6)
     pool = None if serial else {"n": rng.pick([1, 2, 3, 4]), "key": rng.randrange(1 << 30)}
     lint = dict(env, argv=(["--no-multiprocessing"] if serial else []) + ["lint", "--json"])
